@@ -22,7 +22,9 @@ EXE = "drv_c06"
 GEN_MODULES = ["Bech32", "Base58", "Segwit", "Net"]
 RULE = ("op lines come from one seeded PRNG: valid payloads of every witness version / program size / network / "
         "script type, and for a set of valid strings EVERY single-character substitution (whole alphabet plus "
-        "separator, case variant and non-alphabet characters), adjacent transposition, case flip and truncation; "
+        "separator, case variant and non-alphabet characters), adjacent transposition, case flip and truncation, and "
+        "for segwit addresses two-character substitutions (every other version character x random second change, "
+        "random pairs; constant read off the changed version); "
         "a case is non-trivial when the implementation did not refuse it; distinct = distinct (stream, op line)")
 TRUSTED = [
     "hand models Model/C06/{Bech32,BitRegroup,Base58,Address,KeyText,Slip132,Bip21}.lean tied by correspondence only "
@@ -1012,6 +1014,39 @@ def run(ctx):  # noqa: PLR0912, PLR0915
     for k, v in hist.items():
         ctx.count("segwit.mutations", k, v)
     ctx.stream("segwit.mutations", lines)
+
+    # two substitutions, constant read off the (possibly changed) version character: every other version
+    # character x a random second position/character, plus random pairs anywhere after the separator
+    # (theorems two_substitutions_refused_version_constant / two_substitutions_switch_detected)
+    lines = []
+    hist = {"ver+other": 0, "pair": 0, "ver-switch": 0}
+    for a in base32:
+        sep = a.rfind("1")
+        vpos = sep + 1
+        others = list(range(vpos + 1, len(a)))
+        for c in B32A:
+            if c == a[vpos]:
+                continue
+            for _ in range(ctx.n(3, 8)):
+                j = rng.choice(others)
+                d = rng.choice([x for x in B32A if x != a[j]])
+                bad = a[:vpos] + c + a[vpos + 1:j] + d + a[j + 1:]
+                lines.append(f"segwit.dec {T(bad)}")
+                hist["ver+other"] += 1
+                hist["ver-switch"] += (a[vpos] == "q") != (c == "q")
+                ctx.check("segwit.corrupt", {"good": a, "bad": bad}, nontrivial=False)
+        for _ in range(ctx.n(40, 200)):
+            i, j = sorted(rng.sample(range(vpos, len(a)), 2))
+            c = rng.choice([x for x in B32A if x != a[i]])
+            d = rng.choice([x for x in B32A if x != a[j]])
+            bad = a[:i] + c + a[i + 1:j] + d + a[j + 1:]
+            lines.append(f"segwit.dec {T(bad)}")
+            lines.append(f"bech32.dec {T(bad)} None")
+            hist["pair"] += 1
+            ctx.check("bech32.corrupt", {"good": a, "bad": bad, "m": None}, nontrivial=False)
+    for k, v in hist.items():
+        ctx.count("segwit.two_subs", k, v)
+    ctx.stream("segwit.two_subs", lines)
 
     lines = []
     for _ in range(ctx.n(8, 60)):  # generic bech32 strings (not addresses), both constants
